@@ -1070,6 +1070,12 @@ def decide_bool(t):
         if all(r is False for r in rs):
             return False
         return None
+    if t[0] == "call" and len(t) == 3 and len(t[2]) == 1 and isinstance(t[2][0], tuple) and t[2][0][:1] == ("ctor",) \
+            and t[1] in ("Option::is_none", "Option::is_some", "Result::is_ok", "Result::is_err"):
+        side = {"Option::is_none": "Option::None", "Option::is_some": "Option::Some", "Result::is_ok": "Result::Ok", "Result::is_err": "Result::Err"}[t[1]]
+        if t[2][0][1].split("::")[0] == side.split("::")[0]:
+            return t[2][0][1] == side
+        return None
     if t[0] == "op" and t[1] == "Not":
         v = decide_bool(t[2])
         return None if v is None else (not v)
